@@ -14,7 +14,10 @@ CHECKS = {
          "encode(v) ++ s yields v, leaves s, same string table (CodecRt2.roundtrip_A by fuel induction; primitive, "
          "sequence, set, map, tuple lemmas); also through the Rust cursor model (layer B). Tie: dynamic-route harness "
          "runs the library's generic impls at run-time chosen types; bytes and decoded values compared with the model.",
-         "6 C01", "Not yet modelled: chrono/chrono-tz/BigDecimal codecs (outside theorem and stream). " + TB),
+         "6 C01", "The chrono and chrono-tz codecs are inside the theorem: what chrono accepts (calendar, leap seconds, ranges, "
+         "offsets, the 596 zone names) is written out in Calendar.v/TzNames.v as oracles whose agreement with the crates is "
+         "sampled on every boundary (C05 calendar grid) and, for the names, compared on every run; DateTime<Local> under "
+         "TZ=UTC. Not modelled: BigDecimal's decimal text (implementation-only stream). " + TB),
  "C02": ("Theorem over ALL declaration environments (records, enums, transient/optional fields, evolution steps on "
          "structs and variants, sorted constructors, recursion) and values: decode(encode v) = v with transient fields "
          "reset (RecordRt.rt_record_v0, RecordChunked.rt_record_chunked: header parse, chunk cutting, field loop). Tie: "
@@ -41,16 +44,22 @@ CHECKS = {
          "type (static route, real macro), the pinned Point vector, and the implementation decoding reference-built "
          "unknown-form encodings.",
          "6 C04", "There is a single encoder model, so 'B.serialize = A.encode' is by construction and the tie to the code is "
-         "the correspondence run. The Scala golden file is not decoded by the model (custom StackTraceElement codec). Chrono/"
-         "BigDecimal layouts not modelled. " + TB),
+         "the correspondence run. External anchors: the Scala-written golden file (the reference decoder reads the value the "
+         "implementation reads; the reference encoding of that value differs from Scala's only in the size form of one list "
+         "and one repeated header name and is read back as the same value) and the Point vector. BigDecimal's text not "
+         "modelled. " + TB),
  "C05": ("Theorems: the top-level decoder over the DeserializationContext model (usize arithmetic with explicit Panic, "
          "region stack, index/slice/unwrap) never panics for any bytes and any well-formed type (TotalProofs + SimProofs: "
-         "layer B simulates layer A); the three sources answer every count in N like the reference source. Progress / "
-         "allocation / stack depth are measured, not proved. Tie: malformed streams (exhaustive short strings, "
+         "layer B simulates layer A); the three sources answer every count in N like the reference source; TERMINATION "
+         "(TermProofs): every successful decode of a non-zero-width type consumes at least one byte of its region, a fuel "
+         "linear in the unread bytes suffices for every type without sequences of zero-width elements (recursive "
+         "declarations included), and without that restriction a fuel exists (the count governs it: F14). Allocation and "
+         "stack depth are measured, not proved. Tie: malformed streams (exhaustive short strings, "
          "structure-aware mutants, random) in release and debug builds with catch_unwind, watchdog, RLIMIT_AS, counting "
          "allocator.",
          "6 C05", "Known finding F14 (zero-width sequence elements) excluded from the stream and re-confirmed each run; "
-         "stack exhaustion on deeply nested hostile input (F27) not modelled. " + TB),
+         "known finding F27 (stack exhaustion beyond ~3000 nesting levels; the model has no stack) probed each run at "
+         "100/1000/10000/100000 levels. " + TB),
  "C06": ("Theorems: whatever layer B accepts is exactly what the reference decoder assigns (sound, complete, errors "
          "agree); chunk confinement = the simulation relation (a region denotes a sub-list at every step); accepted "
          "input is suffix-independent; arrays need exactly N elements. Tie: tampered encodings of evolved/nested records, "
